@@ -30,7 +30,7 @@ func Check() *engine.Check {
 			"P-256/384/521, Ed25519, all keys derived deterministically) x served key set (single key with kid / without kid, three keys of two " +
 			"types, duplicate kid, key without alg; thorough: + key without alg next to the same key with alg, x5c chains valid / with " +
 			"intermediate / expired / not yet valid / foreign root / foreign root with validate_jwk=false / without digitalSignature usage / " +
-			"system trust store) x assertion configuration (quick 8, thorough 15: issuers, audience, scopes unset/exact/wildcard, leeway " +
+			"system trust store) x assertion configuration (quick 9, thorough 17: issuers, audience, scopes unset/exact/wildcard, leeway " +
 			"default/5s/30s, allowed algorithms default/restricted/excluding, custom subject, metadata endpoint with and without configured " +
 			"issuers, 8 rule level overrides merged through WithConfig) x cache (in-memory, noop). Per scenario and per base token (with kid, " +
 			"without kid): the valid token; EVERY position of its compact serialization replaced by 2 other base64url characters and deleted; " +
@@ -43,7 +43,8 @@ func Check() *engine.Check {
 			"validation decides, and it is not a byte-for-byte re-encoding of the valid token; distinct = distinct (scenario, token string). " +
 			"Two providers: every sequence of 1-3 (authenticator, token) pairs over two jwt authenticators whose providers serve different keys " +
 			"under the same path and kid on different hosts, with one shared cache, HTTP response caching on and off: accepted exactly if signed " +
-			"by and issued for the authenticator's own provider.",
+			"by and issued for the authenticator's own provider; the same with both providers behind ONE URL, told apart by a configured request " +
+			"header (X-Tenant-ID), without response caching.",
 		Assumptions: []string{
 			"validity boundaries follow RFC 7519 with the leeway applied: rejected iff now-leeway >= exp or now+leeway < nbf (clock frozen at env.T0)",
 			"don't-care (either behaviour accepted, counted as outcome): no exp claim; iat in the future; verifying key declares no alg; kid " +
